@@ -5,6 +5,7 @@ import (
 	"encoding/binary"
 	"net"
 	"strconv"
+	"strings"
 
 	"github.com/sirupsen/logrus"
 
@@ -467,6 +468,26 @@ func gen(g *GenCtx) {
 	// ---- certificates
 	for i := scale(g, 150, 100000); i > 0; i-- {
 		emitValue(g, "cert", genCert(r, r.Chance(2, 3)).String(), true, true)
+	}
+	// ---- bundles: several certificates in one PEM file (root stores, CA files): each is decoded on its own
+	for i := scale(g, 40, 4000); i > 0; i-- {
+		var hs []string
+		for k := 2 + r.Intn(3); k > 0; k-- {
+			enc := encOf("cert-enc", genCert(r, true).String())
+			if enc == nil {
+				continue
+			}
+			switch r.Intn(12) {
+			case 0:
+				enc = append(enc, byte(r.Intn(256))) // extra byte after a certificate
+			case 1:
+				enc = enc[:r.Intn(len(enc))]
+			}
+			hs = append(hs, HexOrDash(enc))
+		}
+		if len(hs) > 0 {
+			g.Op("certs-dec %s", strings.Join(hs, ","))
+		}
 	}
 	// ---- intents and grant messages
 	for i := scale(g, 200, 100000); i > 0; i-- {
